@@ -4,7 +4,7 @@ From Coq Require Import Reals ZArith List Bool Lra Lia.
 From PyLib Require Import PyVal PyBuiltins Ideal IdealFacts Whnf PyEval.
 From Spec Require Import AngleSpec.
 From Gen Require Import M_base M_Angle M_Epoch M_Coordinates.
-From Proofs.C07 Require Import C07_lib C07_angle.
+From Proofs.C07 Require Import C07_defs C07_lib C07_angle.
 Import ListNotations.
 Open Scope R_scope.
 
@@ -12,11 +12,6 @@ Ltac2 Set Whnf.is_blocked as old := fun c =>
   Ltac2.Bool.or (old c) (Ltac2.List.exist (Ltac2.Constr.equal c)
     ['@zrange_nat; '@zrange_step; '@List.length; '@List.map; '@List.app; '@nth_val; '@Z.to_nat; '@Z.of_nat;
      '@py_getitem; '@Angle___init__; '@Angle_to_positive; '@enc_series; '@enc_term]).
-
-Definition ep (jde : R) : rval := VObj cEpoch [VFloat jde].
-(* time in Julian millennia from J2000.0, as the code computes it *)
-Definition tmil (jde : R) : R := (jde - Rlit 24515450 (-1)) / Rlit 3652500 (-1).
-
 
 Lemma to_positive_obj v t : -360 < v < 360 ->
   Angle_to_positive Rops (VObj cAngle [VFloat v; VFloat t]) =
